@@ -44,6 +44,10 @@ type c06Service struct {
 	Root    string     `json:"root"`
 	Filters []FSpec    `json:"filters,omitempty"`
 	Routes  []c06Route `json:"routes"`
+	// Order: when the service's filters are registered. 0 before its routes (the usual way),
+	// 1 after its routes, 2 the first half before and the rest after, 3 after the service was
+	// added to the container (dynamic routes: Add, then routes, then filters)
+	Order int `json:"order,omitempty"`
 }
 
 type c06Req struct {
@@ -64,6 +68,8 @@ type C06Case struct {
 		A, B, At int
 	} `json:"parked,omitempty"`
 	Workers int `json:"workers,omitempty"` // concurrent part: goroutines issuing the multiset
+	// LateContainer: the container filters are registered after the WebServices were added
+	LateContainer bool `json:"late_container,omitempty"`
 	// Trace: 0 tracing off, 1 on, 2 on and then switched off with TraceLogger(nil)
 	Trace int `json:"trace,omitempty"`
 }
@@ -98,8 +104,12 @@ func genC06(t *rapid.T, concurrent bool) C06Case {
 			sv.Routes[1].Path = sv.Routes[0].Path
 			sv.Routes[0].Variant, sv.Routes[1].Variant = "a", "b"
 		}
+		if rapid.IntRange(0, 3).Draw(t, "lateorder") == 0 {
+			sv.Order = rapid.IntRange(1, 3).Draw(t, "order")
+		}
 		c.Services = append(c.Services, sv)
 	}
+	c.LateContainer = rapid.IntRange(0, 5).Draw(t, "latecontainer") == 0
 	c.Trace = rapid.SampledFrom([]int{0, 0, 0, 1, 2}).Draw(t, "trace")
 	// at most one asynchronous middleware per configuration (it returns before the rest of the
 	// chain has finished, like http.TimeoutHandler after its deadline)
@@ -351,14 +361,27 @@ func checkC06(c C06Case, partName string) (vs []*Violation) {
 		rec.add(req.Request.Header.Get(c06ReqHeader), &c06Event{ID: "E", Recv: stateOf(req, resp)})
 		resp.WriteErrorString(se.Code, se.Message)
 	})
-	for _, f := range c.Container {
-		ct.Filter(mkFilter(f))
+	if !c.LateContainer {
+		for _, f := range c.Container {
+			ct.Filter(mkFilter(f))
+		}
 	}
 	for _, s := range c.Services {
 		ws := new(restful.WebService)
 		ws.Path(s.Root)
-		for _, f := range s.Filters {
+		before := len(s.Filters)
+		switch s.Order {
+		case 1, 3:
+			before = 0
+		case 2:
+			before = len(s.Filters) / 2
+		}
+		for _, f := range s.Filters[:before] {
 			ws.Filter(mkFilter(f))
+		}
+		if s.Order == 3 {
+			ws.SetDynamicRoutes(true)
+			ct.Add(ws)
 		}
 		for _, r := range s.Routes {
 			r := r
@@ -378,7 +401,17 @@ func checkC06(c C06Case, partName string) (vs []*Violation) {
 				resp.WriteHeader(200)
 			}))
 		}
-		ct.Add(ws)
+		for _, f := range s.Filters[before:] {
+			ws.Filter(mkFilter(f))
+		}
+		if s.Order != 3 {
+			ct.Add(ws)
+		}
+	}
+	if c.LateContainer {
+		for _, f := range c.Container {
+			ct.Filter(mkFilter(f))
+		}
 	}
 	if c.HWF {
 		ct.HandleWithFilter("/hwf/", http.HandlerFunc(func(w http.ResponseWriter, r *http.Request) {
